@@ -101,3 +101,15 @@ CHECKS["C09"] = dict(
     text="Stationarity is checked against the gradient recomputed independently at the returned parameters relative to its size at the all-zero start; monotonicity against the starting objective; predictions against the arg-max of the harness's own linear scores. For the minimiser, the accepted iterates are exactly the points handed to the gradient closure, so the harness records them and checks the objective never increases and the gradient drops by >=1e6.",
     note="Stationarity threshold 1e-3 relative (calibrated worst case 3.2e-5 on the plain lattice); quadratics normalised to smallest eigenvalue >= 1 (g_atol is absolute).",
 )
+CHECKS["C07"] = dict(
+    engine="E1",
+    technique="exhaustive enumeration of design matrices (every X over {0,1,-1,2} for p=1,n=2..4 and p=2,n=3; ternary p=2,n=4; larger in thorough; exact-rank domain decision) x every y over {0,-1,2}^n x 9 model configurations (OLS QR/SVD; ridge alpha in {1e-3,.1,1,100} x normalise on/off, Cholesky/SVD) x {f64,f32}, plus Chebyshev-Vandermonde / indicator / ramp designs for p=1..8, n up to 80, 6 scale x 6 mean patterns; residual-orthogonality / objective-gradient / solver-agreement / predict oracle in compensated f64",
+    text="The minimiser claims are first-order conditions, so the check recomputes the gradient of the stated objective (standardised columns and free intercept, or raw columns with b=0) at the reported (w,b) for every fit, compares the two solvers, and checks predict row by row on the training matrix and on a probe matrix of another size. Backward-error tolerances with >=6.5x measured headroom.",
+    note="Condition-number domain (<=1e6 f64, <=1e3 f32) decided by the oracle's own Jacobi singular values; dense random designs not reached.",
+)
+CHECKS["C19"] = dict(
+    engine="E1",
+    technique="exhaustive enumeration of a finite catalogue: 162 serialisable type configurations x {f64,f32} x 6 lattice data sets x value variants x {bincode, JSON}; every DenseMatrix shape x 5 value patterns x 9 serial forms (incl. the JSON map form in all 6 field orders); every unordered pair of 5 'twin' data sets per subject for inequality; every small n x p matrix x every two-class labelling ('micro'); round-trip / equality / answer-identity oracle",
+    text="Catalogue enumeration is the weakest use of the family in this document, but it is a complete enumeration of a stated finite space judged by a differential oracle: restored == original, Debug rendering unchanged (catches private fields), re-serialisation byte-identical, answers bit-identical on the whole query lattice (JSON: unless decimal rounding changed a bit), m == m, m == refit, m != model fitted on different rows and targets. Randomised estimators are fitted under the owned RNG.",
+    note="Lasso/ElasticNet left out of the micro families (termination belongs to C08); iterative solvers without extreme-scale variants.",
+)
